@@ -37,6 +37,7 @@ def gen(ctx):
         letters = [r.choice(RALPHABET) for _ in range(r.randint(3, 10 if ctx.quick else 30))]
         cases.append(rhistory_case(r, r.choice(NUMTYPES), r.choice(['little', 'big']), r.choice(p04.ATOMS),
                                    r.choice(INDEXTYPES), r.choice(starts), letters))
+    cases += raglib.trailing_empty_cases(r)
     return cases
 
 
@@ -64,6 +65,21 @@ def run(ctx):
             terms.append(f"rchk_wf {raglib.rdir_term(st)}")
             keep.append((key, st))
             ctx.traces += 1
+    # relative handle, then chdir, then resize
+    R = [dict(atom=list(a), dtype=dt, indextype=it, ops=ops) for a, dt, it, ops in
+         (((), 'float64', 'int64', ['append', 'truncate', 'meta']), ((2,), '>i4', 'uint16', ['truncate', 'append']),
+          ((2, 3), 'uint8', 'int32', ['meta', 'append', 'append']))]
+    for case, steps in zip(R, ctx.run_impl(R, 'chdir_resize')):
+        key0 = dict(scenario='relative handle, working directory changed', **case)
+        if isinstance(steps, dict):
+            ctx.fail('harness-error', key0, observed=steps); continue
+        for i, st in enumerate(steps):
+            ctx.seen(dict(key0, step=i)); ctx.count('chdir:' + st['res'][0])
+            why = raglib.check_c05(st, case)
+            if why:
+                ctx.fail('not-well-formed:after-chdir:' + case['ops'][i], dict(case=case, step=i), detail=why,
+                         observed=dict(res=st['res'], top=st['top']['descr']))
+                break
     if keep:
         k, st = keep[len(keep) // 2]
         ctx.sample(dict(state=k, top=st['top']['descr'], indices_hex=st['indices']['data'][:96],
